@@ -69,7 +69,11 @@ def extract(repo=None, use_cache=True, quiet=True):
     os.makedirs(CACHE, exist_ok=True)
     key = tree_hash(repo)
     out = os.path.join(CACHE, f"facts-{key}.json")
-    lock_path = os.path.join(CACHE, "extract.lock")
+    # optional, for the regression tool only: a directory with the compiled *dependencies* (never the crate itself), so that many
+    # scratch copies need not recompile them; the registered checks always compile from scratch
+    warm = os.environ.get("VERIF_WARM_DEPS")
+    warm = warm if warm and os.path.isdir(os.path.join(warm, "debug")) else None
+    lock_path = os.path.join(CACHE, f"extract-{key}.lock" if warm else "extract.lock")
     with open(lock_path, "w") as lock:
         fcntl.flock(lock, fcntl.LOCK_EX)
         try:
@@ -82,6 +86,11 @@ def extract(repo=None, use_cache=True, quiet=True):
             t0 = time.time()
             tgt = tempfile.mkdtemp(prefix="hctl-verif-tgt.")
             fdir = tempfile.mkdtemp(prefix="hctl-verif-facts.")
+            if warm:
+                os.rmdir(tgt)
+                if subprocess.run(["cp", "-al", warm, tgt]).returncode != 0:
+                    shutil.rmtree(tgt, ignore_errors=True)
+                    shutil.copytree(warm, tgt)
             try:
                 env = dict(os.environ)
                 sysroot = nightly_sysroot()
